@@ -134,8 +134,9 @@ def std_leaf(x, what):
 class Ctx:
     """One symbolic Sedov instance (constructor and _run executed on the value graph) and evaluators on it."""
 
-    def __init__(self, model):
+    def __init__(self, model, sample_override=None):
         self.model = model
+        self.sample_override = dict(sample_override or {})
         self.cls = cls = model.get_class(CLS)
         self.b = b = Builder(model)
         self.objn, _ = b.run_solver(cls)
@@ -178,6 +179,7 @@ class Ctx:
                                                               {'__builtins__': {}}), rational=True)
             except Exception:
                 pass
+        s.update(self.sample_override)
         return s
 
     def ev(self, j=None, omega=None, alpha_opaque=True, v_at=None, alpha_singular=False, values=None,
@@ -783,6 +785,21 @@ def run(model, tier):
     tasks = [('standard', _std_part, (cx, ('misc',))), ('standard', _std_part, (cx, ('mass',))),
              ('standard', _std_part, (cx, ('momentum',))), ('standard', _std_part, (cx, ('energy',))),
              ('special', _timed(special), (cx,)), ('limits', _rest, (cx,))]
+    if tier == 'thorough':
+        # the identities again with the bases of the real powers oriented at other points of the parameter domain (other
+        # sign regions: a vacuum-type cylindrical case, a planar case with a steep density profile)
+        for smp in ({'param:geometry': sp.Integer(2), 'param:gamma': sp.Rational(5, 3), 'param:omega': sp.Rational(17, 10),
+                     V: sp.Rational(7, 10)},
+                    {'param:geometry': sp.Integer(1), 'param:gamma': sp.Rational(6, 5), 'param:omega': sp.Rational(1, 2),
+                     V: sp.Rational(7, 10)}):
+            cxs = Ctx(model, sample_override=smp)
+            v2n = cxs.ev().R.ratval(cxs.h['v2']).as_expr().subs({sp.Symbol(k.split(':')[1]): v for k, v in smp.items() if k.startswith('param:')})
+            v0n = cxs.ev().R.ratval(cxs.h['v0']).as_expr().subs({sp.Symbol(k.split(':')[1]): v for k, v in smp.items() if k.startswith('param:')})
+            vvn = cxs.ev().R.ratval(cxs.h['vv']).as_expr().subs({sp.Symbol(k.split(':')[1]): v for k, v in smp.items() if k.startswith('param:')})
+            vsn = cxs.ev().R.ratval(cxs.h['vstar']).as_expr().subs({sp.Symbol(k.split(':')[1]): v for k, v in smp.items() if k.startswith('param:')})
+            cxs.sample_override[V] = sp.nsimplify((v0n + v2n) / 2 if v2n < vsn else (v2n + vvn) / 2)
+            for part in (('misc',), ('mass',), ('momentum',), ('energy',)):
+                tasks.append(('standard', _std_part, (cxs, part)))
     if only:
         tasks = [t for t in tasks if t[0] in only.split(',')]
     run_parallel([(fn, args) for _, fn, args in tasks], res)
